@@ -24,17 +24,17 @@ var curThr = 0.8
 func familyCase(r *rng) int {
 	switch matchFamily {
 	case "planted": // C01
-		return []int{0, 1, 1, 1, 3}[r.intn(5)]
+		return []int{0, 1, 1, 1, 3, 16}[r.intn(6)]
 	case "edited": // C02
 		return []int{2, 2, 4, 5, 5, 3, 10, 11, 9, 15, 15}[r.intn(11)]
 	case "shifted": // C07
-		return []int{1, 5, 5, 2, 10, 8, 12, 13, 13}[r.intn(9)]
+		return []int{1, 5, 5, 2, 10, 8, 12, 13, 13, 16, 16}[r.intn(11)]
 	case "determinism": // C04
 		return []int{0, 2, 3, 8, 8, 9, 11, 11, 5, 14, 14}[r.intn(11)]
 	case "hostile": // C10
 		return []int{6, 7, 7, 4, 12, 12}[r.intn(6)]
 	}
-	return r.intn(16)
+	return r.intn(17)
 }
 
 func genericInputs(r *rng, docs []corpusDoc, n int) []input {
@@ -95,6 +95,30 @@ func genericInputs(r *rng, docs []corpusDoc, n int) []input {
 			}
 			pre := []string{"", oovBlock(r, 1+r.intn(12), 2), string(synthText(r, 1+r.intn(20))) + " "}[r.intn(3)]
 			ins = append(ins, input{"at-end:" + d.name, []byte(pre + strings.Join(ws[a:], " "))})
+		case 16: // the input STARTS with a fragment of the document that lacks its first words (negative diagonal) and is
+			// too short or too damaged to be dense on its own; a clean (or lightly edited) copy follows later
+			ws := strings.Fields(string(d.text))
+			if len(ws) < 12 {
+				ins = append(ins, input{"self:" + d.name, d.text})
+				break
+			}
+			delta := 1 + r.intn(3)
+			m := len(ws) * (15 + r.intn(50)) / 100
+			frag := append([]string{}, ws[delta:delta+m]...)
+			for j := 2; j < len(frag); j += 3 + r.intn(4) {
+				if r.chance(1, 2) {
+					frag[j] = oovWords[r.intn(len(oovWords))]
+				}
+			}
+			later := string(d.text)
+			if r.chance(1, 2) {
+				later = string(editWords(r, d.text, 1+r.intn(4)))
+			}
+			x := strings.Join(frag, " ") + "\n" + oovBlock(r, 5+r.intn(60), 3) + "\n" + later
+			if r.chance(1, 3) {
+				x += "\n" + oovBlock(r, 1+r.intn(20), 2)
+			}
+			ins = append(ins, input{"headless-fragment-first:" + d.name, []byte(x)})
 		case 15: // the edit sits at the very end of the document: last word(s) substituted or dropped
 			ws := strings.Fields(string(d.text))
 			k := 1 + r.intn(2)
